@@ -199,8 +199,9 @@ func show(o outcome) string {
 
 // ---- text generators ----
 type gen struct {
-	r    *common.Rng
-	full bool // whole token grammar (part B)
+	r     *common.Rng
+	full  bool // whole token grammar (part B)
+	ascii bool // no bytes above 127 (part C: positions in characters = positions in bytes)
 }
 
 func (g *gen) sym() string {
@@ -235,9 +236,9 @@ func (g *gen) str() string {
 			b.WriteString(`\n`)
 		case x == 3:
 			b.WriteString(`\t`)
-		case x == 4:
+		case x == 4 && !g.ascii:
 			b.WriteString(`é`)
-		case x == 5:
+		case x == 5 && !g.ascii:
 			b.WriteString("é")
 		case x == 6:
 			b.WriteString(" ")
@@ -271,6 +272,9 @@ func (g *gen) atom() string {
 	case x < 62:
 		return g.str()
 	case x < 68:
+		if g.ascii {
+			return "|" + common.Pick(g.r, []string{"a b", "Foo", "x(y", "", "semi;colon", "q  r"}) + "|"
+		}
 		return "|" + common.Pick(g.r, []string{"a b", "Foo", "x(y", "", "semi;colon", "é"}) + "|"
 	case x < 75:
 		return `#\` + string("abcxyz(;09"[g.r.Intn(10)])
@@ -400,7 +404,10 @@ func Run(ctx *common.Ctx) {
 	if ctx.Thorough() {
 		nA, nB = 3000, 4000
 	}
-	writeTables(ctx)
+	// the translator first; when it fails (recorded, reported without a failing input) the model cannot be
+	// instantiated, but everything that is decided on the implementation alone still runs
+	tablesOK, found := writeTablesSafe(ctx)
+	ws := readerWhitespace(found)
 	var terms []string
 	var descs []any
 	distinct := map[string]bool{}
@@ -431,6 +438,10 @@ func Run(ctx *common.Ctx) {
 			if !ok {
 				ctx.Violate("stream read produced an unexpected condition", map[string]any{"text": string(text), "cuts": cuts}, show(o), nil)
 				return
+			}
+			if !tablesOK && !oneForm && !sameObjs(whole, o) {
+				ctx.Violate("a stream cut into pieces reads differently from the same text read whole",
+					map[string]any{"text": string(text), "cuts": cuts, "eof_with_last_piece": eofWithData}, show(o), show(whole))
 			}
 			var blocks []string
 			for _, p := range pieces {
@@ -476,10 +487,26 @@ func Run(ctx *common.Ctx) {
 	// (B) implementation only, whole token grammar
 	gb := &gen{r: ctx.Rng, full: true}
 	nb := 0
+	// comments first, every run: a line comment and a block comment in each place a comment can stand (inside a
+	// list, between top-level forms, first, last without a newline, after a prefix), with text in the comment
+	// that would read as code; each is cut at every position below
+	fixed := append([]string(nil), commentTexts...)
 	for nb < nB {
-		text := []byte(gb.text())
+		var text []byte
+		if len(fixed) > 0 {
+			text, fixed = []byte(fixed[0]), fixed[1:]
+			ctx.Hist("partB-comment-texts")
+		} else {
+			text = []byte(gb.text())
+			if ctx.Rng.Chance(12) { // a comment in a generated text, wherever the generator put none
+				text = append(text, common.Pick(ctx.Rng, []string{" ; x (y\n z", "\n;;; \"q\n(r)", " #| u ) |# v", ";w"})...)
+			}
+		}
 		if len(text) > 120 {
 			continue
+		}
+		if strings.Contains(string(text), ";") || strings.Contains(string(text), "#|") {
+			ctx.Hist("partB-texts-with-comment")
 		}
 		nb++
 		// reader configuration: mostly the default, sometimes another *read-base* / float format
@@ -594,11 +621,18 @@ func Run(ctx *common.Ctx) {
 	}
 	ctx.Hist(fmt.Sprintf("partB-texts:%d", nb))
 	ctx.Meta.DistinctNontrivial = len(distinct)
-	ctx.Meta.Rule = "(A) grammar-generated texts (<= 90 bytes; symbols, integers, bignums, t/nil, strings with escapes and non-ASCII, |symbols|, #\\c, #b #o #x #nr, #*, lists, dotted lists, #( ), quote, #', backquote/comma, ; and #| |# comments) read by Read, ReadOne and 6 ReadStream deliveries each (one cut, fixed chunk size 1..7, random multi-cuts, both end-of-file styles, one of them in one-form mode), all compared with the models in Coq; (B) texts over the whole token grammar (floats of every format, ratios, named and \\u characters, times, #c, #nA): every single cut of texts <= 64 bytes, chunk sizes 1..17 and random multi-cuts must read like the whole text; distinct = distinct texts of part A"
+	ctx.Meta.Rule = "(A) grammar-generated texts (<= 90 bytes; symbols, integers, bignums, t/nil, strings with escapes and non-ASCII, |symbols|, #\\c, #b #o #x #nr, #*, lists, dotted lists, #( ), quote, #', backquote/comma, ; and #| |# comments) read by Read, ReadOne and 6 ReadStream deliveries each (one cut, fixed chunk size 1..7, random multi-cuts, both end-of-file styles, one of them in one-form mode), all compared with the models in Coq; (B) texts over the whole token grammar (floats of every format, ratios, named and \\u characters, times, #c, #nA): every single cut of texts <= 64 bytes, chunk sizes 1..17 and random multi-cuts must read like the whole text; 17 fixed texts with ; and #| |# comments in every place a comment can stand come first, and 12 % of the generated texts get a comment appended; when the table translator fails the run goes on without the model: parts A-C compare the implementation with itself; (C) cl:read-from-string: every ordered pair of 12 forms x 6 separators (each white-space byte of the reader's value-mode table, a line comment, a block comment) x 8 endings (nothing, each white-space byte, three two-byte runs) with a rotating lead (6912 texts) and generated ASCII texts (10 % with bytes above 127, plain call only) with runs of the reader's white-space bytes in front and behind are read form by form in three ways - (read-from-string rest), :start pos, :start pos :preserve-whitespace t - from the reported positions; the first and third must collect the objects of Read on the whole text, the position without :preserve-whitespace must be the position with it moved over white space only; all calls of the generated texts and of 150 enumerated ones drawn per run (plus :start/:end windows) are compared with the model of the function and, inside the guard, with the rule; distinct = distinct texts of part A"
 	header := "From Coq Require Import ZArith.\nFrom C02 Require Import Model Spec Corr.\nFrom GenC02 Require Import Tables.\n"
 	footer := "Definition res := Eval vm_compute in check_all tables esc cases.\nPrint res.\nDefinition gcount := Eval vm_compute in guard_count cases.\nPrint gcount.\n"
-	ctx.WriteShards("cases", header, "case", footer, terms, descs, 16)
+	// (C) cl:read-from-string: the reported position, and reading a text form by form from it
+	rterms, rdescs := readFromPart(ctx, s, ws)
+	if tablesOK {
+		ctx.WriteShards("cases", header, "case", footer, terms, descs, 16)
+		rfooter := "Definition res := Eval vm_compute in check_rall tables esc cases.\nPrint res.\nDefinition gcount := Eval vm_compute in rguard_count cases.\nPrint gcount.\n"
+		ctx.WriteShards("rfs", header, "rcase", rfooter, rterms, rdescs, 8)
+	}
 	replayKnown(ctx, s)
+	ctx.ReplayKnownLisp()
 }
 
 // witnesses of known / fixed findings: a text, a delivery and what must come out
@@ -638,6 +672,28 @@ func replayKnown(ctx *common.Ctx, s *slip.Scope) {
 			ctx.KnownResult(id, whole.err != "" || len(whole.objs) != w.Count, show(whole))
 		}
 	}
+}
+
+// commentTexts: part B reads each of these whole and cut at every single position, in every chunk size and
+// at random places (added for the round-3 seed c02-7: a line comment lost at a block boundary)
+var commentTexts = []string{
+	"(a ; not| code\n b)",
+	"1 ;2\n3",
+	"(a ; b) c\n d)",
+	"; first (line\n(x y)",
+	"(x y) ; last, no newline",
+	"(x ;; two ; three \" |\n y)",
+	"'; quoted\n a",
+	"(a ;c\r\n b)",
+	"#(1 ; in a vector )\n 2)",
+	"(a #| block ) ; |# b)",
+	"#| first |# (a b)",
+	"(a b) #| last |#",
+	"(a #| x | # y |# b) c",
+	"a ; one\n ; two\n b",
+	"(\"s;not\" ; real \"\n t2)",
+	"(a ;\n b)",
+	"(a ;(\n)",
 }
 
 type collector struct{ code slip.Code }
